@@ -156,6 +156,7 @@ func (h *Handler) handleRequest(host *packet.Host, p packet.DHCP4, options packe
 			!bytes.Equal(lease.Addr.MAC, p.CHAddr()) || // invalid hardware
 			(lease.State == StateDiscover && (!bytes.Equal(lease.XID, p.XId()) || lease.IPOffer != reqIP)) || // invalid discover request
 			(lease.State == StateDiscover && !h.available(lease, reqIP)) || // meanwhile acknowledged to another client or in use
+			(lease.State == StateAllocated && !lease.DHCPExpiry.IsZero() && lease.DHCPExpiry.Before(time.Now())) || // the lease ran out: the client must discover again
 			(lease.State == StateAllocated && lease.Addr.IP != reqIP) { // invalid request - iphone send duplicate select packets - let it pass
 			Logger.Msg("request NACK - select invalid parameters").ByteArray("xid", p.XId()).ByteArray("lxid", lease.XID).IP("leaseIP", lease.Addr.IP).Write()
 			return nakPacket(p, subnet.DHCPServer.AsSlice(), clientID)
@@ -204,6 +205,7 @@ func (h *Handler) handleRequest(host *packet.Host, p packet.DHCP4, options packe
 
 		if lease.State != StateAllocated ||
 			lease.Addr.IP != reqIP || !bytes.Equal(lease.Addr.MAC, p.CHAddr()) ||
+			(!lease.DHCPExpiry.IsZero() && lease.DHCPExpiry.Before(time.Now())) || // the lease ran out
 			!subnet.LAN.Contains(lease.Addr.IP) {
 			Logger.Msg("request NACK - rebooting").ByteArray("xid", p.XId()).IP("ip", reqIP).Write()
 
